@@ -99,31 +99,33 @@ theorem Inv.active_of_empty {s : State} {g : Ghost} (I : Inv s g) {t : Nat} {l :
   | new => exact Or.inr ⟨cellId_new_ne_c0 k, I.post_of_new hl hT htab⟩
 
 /-- the kinds of memory effects of a transition of thread `t` (local state `l`) -/
-inductive MemStep (s s' : State) (l : Local) (g : Ghost) : Ghost → Prop
+inductive MemStep (s s' : State) (v : Option (CellId × Nat)) (g : Ghost) : Ghost → Prop
   | same : s'.heap = s.heap → s'.cell0 = s.cell0 → s'.lowCell = s.lowCell → s'.highCell = s.highCell →
-      s'.cur = s.cur → MemStep s s' l g g
+      s'.cur = s.cur → MemStep s s' v g g
   | lock (i : Nat) (x : Option Nat) : s'.heap = s.heap.modify i (fun m => { m with lock := x }) →
       s'.cell0 = s.cell0 → s'.lowCell = s.lowCell → s'.highCell = s.highCell → s'.cur = s.cur →
-      MemStep s s' l g g
+      MemStep s s' v g g
   | upd (id : CellId) : Active g id → Effect s s' g id →
-      (getCell s id = .empty ∨ ∃ h, vcell l = some (id, h)) → MemStep s s' l g g
-  | build (h : Nat) : g.ph = .pre → vcell l = some (.c0, h) → s.cell0 = .node h →
+      (getCell s id = .empty ∨ ∃ h, v = some (id, h)) → MemStep s s' v g g
+  | clear (id : CellId) (h : Nat) : Active g id → Update s s' g id [] → s'.heap = s.heap →
+      v = some (id, h) → MemStep s s' v g g
+  | build (h : Nat) : g.ph = .pre → v = some (.c0, h) → s.cell0 = .node h →
       s'.heap = (splitBin s.heap (chainFrom s.heap s.heap.length (some h))).1 →
       s'.cell0 = s.cell0 → s'.lowCell = s.lowCell → s'.highCell = s.highCell → s'.cur = s.cur →
-      MemStep s s' l g ⟨.mid (splitBin s.heap (chainFrom s.heap s.heap.length (some h))).2.1
+      MemStep s s' v g ⟨.mid (splitBin s.heap (chainFrom s.heap s.heap.length (some h))).2.1
         (splitBin s.heap (chainFrom s.heap s.heap.length (some h))).2.2, (s.heap.length, s'.heap.length)⟩
   | storeNew (lo hg : Option Nat) : g.ph = .mid lo hg → s'.heap = s.heap → s'.cell0 = s.cell0 →
       (s'.lowCell = s.lowCell ∨ (s.lowCell = .empty ∧ s'.lowCell = cellOfHead lo)) →
       (s'.highCell = s.highCell ∨ (s.highCell = .empty ∧ s'.highCell = cellOfHead hg)) →
-      s'.cur = s.cur → MemStep s s' l g g
+      s'.cur = s.cur → MemStep s s' v g g
   | casMoved : g.ph = .pre → s.cell0 = .empty → s'.heap = s.heap → s'.cell0 = .moved →
-      s'.lowCell = s.lowCell → s'.highCell = s.highCell → s'.cur = s.cur → MemStep s s' l g ⟨.post, g.cr⟩
+      s'.lowCell = s.lowCell → s'.highCell = s.highCell → s'.cur = s.cur → MemStep s s' v g ⟨.post, g.cr⟩
   | commit : g.ph = .post → s'.heap = s.heap → s'.cell0 = s.cell0 → s'.lowCell = s.lowCell →
-      s'.highCell = s.highCell → MemStep s s' l g g
-  | moved (h : Nat) (lo hg : Option Nat) : g.ph = .mid lo hg → vcell l = some (.c0, h) →
+      s'.highCell = s.highCell → MemStep s s' v g g
+  | moved (h : Nat) (lo hg : Option Nat) : g.ph = .mid lo hg → v = some (.c0, h) →
       s.lowCell = cellOfHead lo → s.highCell = cellOfHead hg →
       s'.heap = s.heap → s'.cell0 = .moved →
-      s'.lowCell = s.lowCell → s'.highCell = s.highCell → s'.cur = s.cur → MemStep s s' l g ⟨.post, g.cr⟩
+      s'.lowCell = s.lowCell → s'.highCell = s.highCell → s'.cur = s.cur → MemStep s s' v g ⟨.post, g.cr⟩
 
 
 theorem getCell_tick (s : State) (id : CellId) : getCell (tick s) id = getCell s id := by cases id <;> rfl
@@ -185,7 +187,7 @@ theorem Inv.store_ok {s : State} {g : Ghost} (I : Inv s g) {t : Nat} {l : Local}
 
 /-- every transition is one of the memory effects -/
 theorem stepK_mem {s s' : State} {g : Ghost} {t : Nat} {l : Local} (I : Inv s g)
-    (hl : s.threads[t]? = some l) (hk : StepK s t l s') : ∃ g', MemStep s s' l g g' := by
+    (hl : s.threads[t]? = some l) (hk : StepK s t l s') : ∃ g', MemStep s s' (vcell l) g g' := by
   cases hk with
   | idle hpc => exact ⟨g, .same rfl rfl rfl rfl rfl⟩
   | invoke k op hpc => exact ⟨g, .same rfl rfl rfl rfl rfl⟩
@@ -256,7 +258,7 @@ theorem stepK_mem {s s' : State} {g : Ghost} {t : Nat} {l : Local} (I : Inv s g)
     rw [hpc] at hph
     exact ⟨g, .commit hph rfl rfl rfl rfl⟩
 
-theorem MemStep.hinv {s s' : State} {l : Local} {g g' : Ghost} (H : HInv s g) (m : MemStep s s' l g g') :
+theorem MemStep.hinv {s s' : State} {v : Option (CellId × Nat)} {g g' : Ghost} (H : HInv s g) (m : MemStep s s' v g g') :
     HInv s' g' := by
   cases m with
   | same hh h0 hL hH hc => exact H.congr hh h0 hL hH hc
@@ -264,32 +266,82 @@ theorem MemStep.hinv {s s' : State} {l : Local} {g g' : Ghost} (H : HInv s g) (m
   | upd id act he _ =>
     obtain ⟨C', u, -, -⟩ := he
     exact hinv_update H act u
+  | clear id h act u hh hv => exact hinv_update H act u
   | build h hp hv hc0 hh h0 hL hH hc => exact (build_effect H hp hc0 hh h0 hL hH hc).1
   | storeNew lo hg hp hh h0 hL hH hc => exact (storeNew_effect H hp hh h0 hL hH hc).1
   | casMoved hp hc0 hh h0 hL hH hc => exact (casMoved_effect H hp hc0 hh h0 hL hH hc).1
   | commit hp hh h0 hL hH => exact (commit_effect H hp hh h0 hL hH).1
   | moved h lo hg hp hv hlow hhigh hh h0 hL hH hc => exact (moved_effect H hp hlow hhigh hh h0 hL hH hc).1
 
-/-- every transition except the store of the forwarding marker is a `HeapStep` -/
-theorem MemStep.heapStep {s s' : State} {l : Local} {g g' : Ghost} (H : HInv s g) (m : MemStep s s' l g g')
-    (hnm : s'.cell0 = .moved → s.cell0 = .moved ∨ s.cell0 = .empty) : HeapStep s s' g.cr g'.cr := by
+/-- dead nodes stay dead -/
+theorem MemStep.dead {s s' : State} {v : Option (CellId × Nat)} {g g' : Ghost} (H : HInv s g) (m : MemStep s s' v g g') :
+    ∀ j, j < s.heap.length → ¬ Live s g.cr j → ¬ Live s' g'.cr j := by
+  intro j hj hnl
   cases m with
-  | same hh h0 hL hH hc => exact .of_same hh h0 hL hH hc
-  | lock i x hh h0 hL hH hc => exact (lock_effect H hh h0 hL hH hc).2.1
+  | same hh h0 hL hH hc => exact ((HeapStep.of_same (cr := g.cr) hh h0 hL hH hc).off j hj hnl).2.2
+  | lock i x hh h0 hL hH hc => exact ((lock_effect H hh h0 hL hH hc).2.1.off j hj hnl).2.2
   | upd id act he _ =>
     obtain ⟨C', -, hs, -⟩ := he
-    exact hs
-  | build h hp hv hc0 hh h0 hL hH hc => exact (build_effect H hp hc0 hh h0 hL hH hc).2.1
-  | storeNew lo hg hp hh h0 hL hH hc => exact (storeNew_effect H hp hh h0 hL hH hc).2.1
-  | casMoved hp hc0 hh h0 hL hH hc => exact (casMoved_effect H hp hc0 hh h0 hL hH hc).2.1
-  | commit hp hh h0 hL hH => exact (commit_effect H hp hh h0 hL hH).2.1
+    exact (hs.off j hj hnl).2.2
+  | clear id h act u hh hv =>
+    obtain ⟨hC, hO⟩ := u.chains H act
+    rw [live_iff] at hnl ⊢
+    rintro (⟨id', hm⟩ | ⟨hm, hcp⟩)
+    · by_cases hid : id' = id
+      · subst hid; rw [hC] at hm; cases hm
+      · rw [hO id' hid] at hm; exact hnl (Or.inl ⟨id', hm⟩)
+    · exact hnl (Or.inr ⟨fun h => hm ((u.cell0_moved_iff H act).2 h), hcp⟩)
+  | build h hp hv hc0 hh h0 hL hH hc => exact ((build_effect H hp hc0 hh h0 hL hH hc).2.1.off j hj hnl).2.2
+  | storeNew lo hg hp hh h0 hL hH hc => exact ((storeNew_effect H hp hh h0 hL hH hc).2.1.off j hj hnl).2.2
+  | casMoved hp hc0 hh h0 hL hH hc => exact ((casMoved_effect H hp hc0 hh h0 hL hH hc).2.1.off j hj hnl).2.2
+  | commit hp hh h0 hL hH => exact ((commit_effect H hp hh h0 hL hH).2.1.off j hj hnl).2.2
   | moved h lo hg hp hv hlow hhigh hh h0 hL hH hc =>
-    exfalso
-    obtain ⟨⟨h', hc0⟩, -⟩ := H.mid lo hg hp
-    rcases hnm h0 with h1 | h1 <;> (rw [hc0] at h1; cases h1)
+    intro hl
+    apply hnl
+    unfold Live at hl ⊢
+    have e0 : chO s' = [] := by unfold chO; rw [h0]; exact chainH_moved _
+    have eL : chL s' = chL s := by unfold chL; rw [hh, hL]
+    have eH : chH s' = chH s := by unfold chH; rw [hh, hH]
+    rw [e0, eL, eH] at hl
+    rcases hl with hl | hl | hl | ⟨hl, _⟩
+    · cases hl
+    · exact Or.inr (Or.inl hl)
+    · exact Or.inr (Or.inr (Or.inl hl))
+    · exact absurd h0 hl
+
+/-- the cells of the new table never hold a forwarding marker -/
+theorem MemStep.newCells {s s' : State} {v : Option (CellId × Nat)} {g g' : Ghost} (_H : HInv s g) (m : MemStep s s' v g g')
+    (h : s.lowCell ≠ .moved ∧ s.highCell ≠ .moved) : s'.lowCell ≠ .moved ∧ s'.highCell ≠ .moved := by
+  have hupd : ∀ {id : CellId} {C' : List Nat}, Update s s' g id C' → s'.lowCell ≠ .moved ∧ s'.highCell ≠ .moved := by
+    intro id C' u
+    have key : ∀ id', getCell s id' ≠ .moved → getCell s' id' ≠ .moved := by
+      intro id' h1
+      by_cases hid : id' = id
+      · subst hid; exact u.notMoved
+      · rw [u.cell id' hid]; exact h1
+    exact ⟨key .low h.1, key .high h.2⟩
+  cases m with
+  | same hh h0 hL hH hc => rw [hL, hH]; exact h
+  | lock i x hh h0 hL hH hc => rw [hL, hH]; exact h
+  | upd id act he _ =>
+    obtain ⟨C', u, -, -⟩ := he
+    exact hupd u
+  | clear id h' act u hh hv => exact hupd u
+  | build h' hp hv hc0 hh h0 hL hH hc => rw [hL, hH]; exact h
+  | storeNew lo hg hp hh h0 hL hH hc =>
+    refine ⟨?_, ?_⟩
+    · rcases hL with hL | ⟨_, hL⟩
+      · rw [hL]; exact h.1
+      · rw [hL]; exact cellOfHead_ne_moved _
+    · rcases hH with hH | ⟨_, hH⟩
+      · rw [hH]; exact h.2
+      · rw [hH]; exact cellOfHead_ne_moved _
+  | casMoved hp hc0 hh h0 hL hH hc => rw [hL, hH]; exact h
+  | commit hp hh h0 hL hH => rw [hL, hH]; exact h
+  | moved h' lo hg hp hv hlow hhigh hh h0 hL hH hc => rw [hL, hH]; exact h
 
 /-- the heap never shrinks -/
-theorem MemStep.len_le {s s' : State} {l : Local} {g g' : Ghost} (H : HInv s g) (m : MemStep s s' l g g') :
+theorem MemStep.len_le {s s' : State} {v : Option (CellId × Nat)} {g g' : Ghost} (H : HInv s g) (m : MemStep s s' v g g') :
     s.heap.length ≤ s'.heap.length := by
   cases m with
   | same hh h0 hL hH hc => rw [hh]; exact Nat.le_refl _
@@ -297,6 +349,7 @@ theorem MemStep.len_le {s s' : State} {l : Local} {g g' : Ghost} (H : HInv s g) 
   | upd id act he _ =>
     obtain ⟨C', u, -, -⟩ := he
     exact u.len
+  | clear id h act u hh hv => exact u.len
   | build h hp hv hc0 hh h0 hL hH hc => exact (build_effect H hp hc0 hh h0 hL hH hc).2.2.2.2
   | storeNew lo hg hp hh h0 hL hH hc => rw [hh]; exact Nat.le_refl _
   | casMoved hp hc0 hh h0 hL hH hc => rw [hh]; exact Nat.le_refl _
@@ -304,7 +357,7 @@ theorem MemStep.len_le {s s' : State} {l : Local} {g g' : Ghost} (H : HInv s g) 
   | moved h lo hg hp hv hlow hhigh hh h0 hL hH hc => rw [hh]; exact Nat.le_refl _
 
 /-- only lock / unlock change lock words -/
-theorem MemStep.locks {s s' : State} {l : Local} {g g' : Ghost} (H : HInv s g) (m : MemStep s s' l g g') :
+theorem MemStep.locks {s s' : State} {v : Option (CellId × Nat)} {g g' : Ghost} (H : HInv s g) (m : MemStep s s' v g g') :
     (∀ j, j < s.heap.length → (nodeAt s'.heap j).lock = (nodeAt s.heap j).lock) ∨
     ∃ i x, s'.heap = s.heap.modify i (fun m => { m with lock := x }) := by
   cases m with
@@ -313,6 +366,7 @@ theorem MemStep.locks {s s' : State} {l : Local} {g g' : Ghost} (H : HInv s g) (
   | upd id act he _ =>
     obtain ⟨C', -, -, hlk⟩ := he
     exact Or.inl hlk
+  | clear id h act u hh hv => left; intro j _; rw [hh]
   | build h hp hv hc0 hh h0 hL hH hc =>
     left; intro j hj; rw [(build_effect H hp hc0 hh h0 hL hH hc).2.2.2.1 j hj]
   | storeNew lo hg hp hh h0 hL hH hc => left; intro j _; rw [hh]
@@ -328,26 +382,20 @@ theorem vcell_tab {l : Local} {id : CellId} {h : Nat} (hv : vcell l = some (id, 
     exact ⟨hT, htab⟩
   · exact absurd h0 hid
 
-/-- **frame**: a transition of thread `t` does not touch the cell, the chain and the chain nodes of a
-cell on which another thread holds a validated lock -/
-theorem MemStep.frame {s s' : State} {g g' : Ghost} {t t1 : Nat} {l l1 : Local} (I : Inv s g)
-    (hl : s.threads[t]? = some l) (m : MemStep s s' l g g') (hne : t1 ≠ t)
-    (hl1 : s.threads[t1]? = some l1) {id1 : CellId} {h1 : Nat} (hv1 : vcell l1 = some (id1, h1)) :
+/-- **frame** (thread-free form): a memory effect whose author is not validated on `id1` does not touch
+the cell `id1` (which holds a node), its chain and its chain nodes -/
+theorem MemStep.frame' {s s' : State} {g g' : Ghost} {v : Option (CellId × Nat)} (H : HInv s g)
+    (m : MemStep s s' v g g') {id1 : CellId} {h1 : Nat} (hcell1 : getCell s id1 = .node h1)
+    (hpost1 : id1 ≠ .c0 → g.ph = .post) (hexcl : ∀ h, v ≠ some (id1, h)) :
     getCell s' id1 = getCell s id1 ∧ chId s' id1 = chId s id1 ∧
       ∀ j ∈ chId s id1, (nodeAt s'.heap j).key = (nodeAt s.heap j).key ∧
         (nodeAt s'.heap j).next = (nodeAt s.heap j).next := by
-  have H := I.heap
-  obtain ⟨hcell1, -⟩ := I.lock.validated t1 l1 id1 h1 hl1 hv1
   have hsame : ∀ {s'' : State}, s''.heap = s.heap → getCell s'' id1 = getCell s id1 →
       getCell s'' id1 = getCell s id1 ∧ chId s'' id1 = chId s id1 ∧
       ∀ j ∈ chId s id1, (nodeAt s''.heap j).key = (nodeAt s.heap j).key ∧
         (nodeAt s''.heap j).next = (nodeAt s.heap j).next := by
     intro s'' hh hc
     refine ⟨hc, by unfold chId; rw [hh, hc], fun j _ => by rw [hh]; exact ⟨rfl, rfl⟩⟩
-  have hpost1 : id1 ≠ .c0 → g.ph = .post := by
-    intro hid
-    obtain ⟨hT, htab⟩ := vcell_tab hv1 hid
-    exact I.post_of_new hl1 hT htab
   cases m with
   | same hh h0 hL hH hc => exact hsame hh (by cases id1 <;> assumption)
   | lock i x hh h0 hL hH hc =>
@@ -359,10 +407,18 @@ theorem MemStep.frame {s s' : State} {g g' : Ghost} {t t1 : Nat} {l l1 : Local} 
       rintro rfl
       rcases hex with he | ⟨h, hv⟩
       · rw [he] at hcell1; cases hcell1
-      · exact hne (I.mutex hl1 hl hv1 hv)
+      · exact hexcl h hv
     refine ⟨u.cell id1 hid, (u.chains H act).2 id1 hid, ?_⟩
     intro j hj
     rw [u.other j (H.chain_lt hj) (fun hm => H.disjoint act hid hm hj)]
+    exact ⟨rfl, rfl⟩
+  | clear id h act u hh hv =>
+    have hid : id1 ≠ id := by
+      rintro rfl
+      exact hexcl h hv
+    refine ⟨u.cell id1 hid, (u.chains H act).2 id1 hid, ?_⟩
+    intro j _
+    rw [hh]
     exact ⟨rfl, rfl⟩
   | build h hp hv hc0 hh h0 hL hH hc =>
     obtain ⟨H', -, -, hnode, hlen⟩ := build_effect H hp hc0 hh h0 hL hH hc
@@ -393,8 +449,24 @@ theorem MemStep.frame {s s' : State} {g g' : Ghost} {t t1 : Nat} {l l1 : Local} 
   | moved h lo hg hp hv hlow hhigh hh h0 hL hH hc =>
     by_cases hid : id1 = .c0
     · subst hid
-      exact absurd (I.mutex hl1 hl hv1 hv) hne
+      exact absurd hv (hexcl h)
     · have := hpost1 hid
       rw [hp] at this; cases this
+
+/-- **frame**: a transition of thread `t` does not touch the cell, the chain and the chain nodes of a
+cell on which another thread holds a validated lock -/
+theorem MemStep.frame {s s' : State} {g g' : Ghost} {t t1 : Nat} {l l1 : Local} (I : Inv s g)
+    (hl : s.threads[t]? = some l) (m : MemStep s s' (vcell l) g g') (hne : t1 ≠ t)
+    (hl1 : s.threads[t1]? = some l1) {id1 : CellId} {h1 : Nat} (hv1 : vcell l1 = some (id1, h1)) :
+    getCell s' id1 = getCell s id1 ∧ chId s' id1 = chId s id1 ∧
+      ∀ j ∈ chId s id1, (nodeAt s'.heap j).key = (nodeAt s.heap j).key ∧
+        (nodeAt s'.heap j).next = (nodeAt s.heap j).next := by
+  obtain ⟨hcell1, -⟩ := I.lock.validated t1 l1 id1 h1 hl1 hv1
+  refine m.frame' I.heap hcell1 ?_ ?_
+  · intro hid
+    obtain ⟨hT, htab⟩ := vcell_tab hv1 hid
+    exact I.post_of_new hl1 hT htab
+  · intro h hv
+    exact hne (I.mutex hl1 hl hv1 hv)
 
 end Flurry.Proto.BinX
